@@ -41,7 +41,7 @@ FORMS = {
     "from_import": "from rust::{C} import {I}",
     "import_alias": "import rust::{C} as {C}_alias",
 }
-ITEM = {"serde_json": "Value", "regex": "Regex", "rand": "Rng", "chrono": "Utc", "uuid": "Uuid", "anyhow": "Error", "itertools": "Itertools", "log": "Level", "std": "collections", "foo_unknown_crate": "Thing"}
+ITEM = {"serde_json": "Value", "regex": "Regex", "rand": "Rng", "chrono": "Utc", "uuid": "Uuid", "anyhow": "Error", "itertools": "Itertools", "log": "Level", "std": "collections", "foo_unknown_crate": "Thing", "axum": "Router", "hyper": "Body", "tower": "Service"}
 NAMES = ["p", "my_prog", "my-prog", "Prog", "p2", "test", "serde", "incan_stdlib", "match", "main", "x" * 40]
 
 
@@ -66,6 +66,15 @@ def cases(tier):
     for f in FORMS:
         out.append({"triggers": (), "imports": (("foo_unknown_crate", f),), "name": "prog", "expect_refused": True})
         out.append({"triggers": ("derive_serialize",), "imports": (("regex", "import_crate"), ("foo_unknown_crate", f)), "name": "prog", "expect_refused": True})
+    # crates without a known-good version that the generator itself knows by name (a feature pins them) or that live next
+    # to such a feature: refused whatever other feature is on (web + an explicit axum import is not specified: left out)
+    for c in ("axum", "hyper", "tower", "foo_unknown_crate"):
+        for f in ("import_crate", "from_import"):
+            for trg in ((), ("async_fn",), ("derive_serialize",), ("async_fn", "derive_serialize"), ("web_import_only",), ("web_route",)):
+                if c == "axum" and any(t.startswith("web") for t in trg) or (c == "foo_unknown_crate" and not trg):
+                    continue
+                out.append({"triggers": trg, "imports": ((c, f),), "name": "prog", "expect_refused": True})
+    out.append({"triggers": ("async_fn",), "imports": (("axum", "from_import"),), "name": "prog", "expect_refused": True, "where": "dep"})
     # the same feature triggers / imports living in a dependency module instead of the entry file
     for t in ("derive_serialize", "json_stringify_call", "async_fn", "web_route", "collections"):
         out.append({"triggers": (t,), "imports": (), "name": "prog", "where": "dep"})
@@ -284,7 +293,7 @@ def run(tier):
         "evaluations": len(cs) + len(real),
         "distinct_nontrivial": len(sig_ok),
         "rule": "project generations: every subset of <= 2 (thorough <= 3) of 11 feature triggers (derive Serialize / Deserialize merged, stacked, on class; json_stringify; async; plain; web route; web import only), 8 cases with the trigger or rust:: import in a dependency module instead of the entry file, 32 with two dependency modules (4 x 4 trigger / import pairs, imported in either order), "
-        "every known-good crate in 4 import forms, crate pairs, std, crates also implied by a feature, an unknown crate in every form (must be refused), 11 project names; oracle on "
+        "every known-good crate in 4 import forms, crate pairs, std, crates also implied by a feature, an unknown crate in every form (must be refused), 4 unknown crates incl. the feature-pinned `axum` x 2 forms x 6 feature sets (must be refused), 11 project names; oracle on "
         "the files written by the real `incan build` (no-op cargo): TOML parses, package/bin name = file stem, every dependency pinned, declared crates = crates referenced by the "
         "generated Rust (token scan ignoring strings/comments) + {incan_stdlib, incan_derive}; plus real cargo builds of the registry-available subsets",
         "samples": [{"triggers": list(c["triggers"]), "imports": [list(i) for i in c["imports"]], "name": c["name"]} for c in common.pick_samples(cs)],
